@@ -448,10 +448,16 @@ def run_one(ch):
             if nd.get("greykind") == 4 and verdict[2] <= max_r:
                 # an absolute URL of another scheme cannot be followed: that 3x is the final
                 # response of a chain that stayed within the limit
-                if got[0] != "resp" or got[1] != nd["status"] or got[2] != nd["meta"]:
+                # (a dedicated "cannot follow this scheme" error would be a legitimate answer too;
+                # what is wrong is another response, or blaming a loop / the redirect limit)
+                misreported = got[0] == "err" and any(w_ in (got[2] or "").lower() for w_ in
+                                                      ("maximum redirect", "too many redirect", "loop"))
+                if (got[0] == "resp" and (got[1] != nd["status"] or got[2] != nd["meta"])) or misreported:
                     res.violate("C16/unfollowable-redirect-not-returned",
                                 f"after {verdict[2]} gemini redirects (max_redirects={max_r}) the chain "
-                                f"ends in a 3x to a non-gemini URL: it must be returned as it is", **ctx)
+                                f"ends in a 3x to a non-gemini URL: that 3x is the final response (or a clear "
+                                f"'cannot follow' error) - not another response, not a loop / limit error",
+                                **ctx)
         elif v == "changed":
             st["cert_changed_on_hop"] = 1
             if got[0] == "resp":
